@@ -336,16 +336,21 @@ func c19Property(env *storeEnv) func(t *rapid.T) {
 					if serr == "" {
 						t.Fatalf("store with no-clobber replaced the existing entry %q%s", id, history())
 					}
-				case damaged[id] == "directory":
-					if serr == "" {
-						t.Fatalf("store succeeded although the entry path is a directory%s", history())
-					}
+				case damaged[id] == "directory" && serr != "":
+					// (a directory sits where the entry belongs: refusing is fine, clearing it and storing is fine too)
 				default:
 					if serr != "" {
 						if existed && noClobber {
 							break // damaged entry exists: refusing is fine
 						}
-						t.Fatalf("store(%q) failed: %s%s", id, serr, history())
+						// the statement promises what holds *after a successful store*: a store that refuses an unusual
+						// identifier with an error return breaks no clause. Plain identifiers in a healthy directory
+						// must be storable, otherwise nothing here would be exercised.
+						if len(id) == 1 && id[0] >= 'a' && id[0] <= 'z' {
+							t.Fatalf("store(%q) failed: %s%s", id, serr, history())
+						}
+						hx.Class("store_refused_with_error")
+						break
 					}
 					if existed {
 						overwrote = true
@@ -400,12 +405,9 @@ func c19Property(env *storeEnv) func(t *rapid.T) {
 				if r.Res[0].Err == "" {
 					t.Fatalf("storing a document without identifier (%s) did not return an error%s", kind, history())
 				}
-				after := snapshotTree(T)
-				for p := range after {
-					if _, ok := before[p]; !ok && p != baseRel && !strings.HasPrefix(baseRel, p+"/") {
-						t.Fatalf("a failed store(%s) created %q%s", kind, p, history())
-					}
-				}
+				// (what a refused store leaves inside the configured directory — the directory itself, a staging area,
+				// a lock — is not stated; confinement is)
+				_ = before
 				checkConfinement("store(" + kind + ")")
 			},
 			"retrieve": func(t *rapid.T) {
